@@ -30,6 +30,8 @@ from simkit import log as logmod
 from simkit import rng as rngmod
 from simkit import zk as zkmod
 
+import kazoo.exceptions as kexc
+
 from treadmill import context
 from treadmill import eventmgr
 from treadmill import fs as tm_fs
@@ -48,6 +50,10 @@ ROOT = z.path.placement(HOST)
 READY = eventmgr.READY_FILE
 ADMIN_OP_S = 0.002        # virtual time one admin round trip takes
 PLACEMENT_KEYS = ('identity', 'identity_count', 'expires')
+PRESENCE = z.path.server_presence(HOST)
+# lost reply on one read call of the agent's client (the session survives)
+ZK_KINDS = ('zk_conn_loss', 'zk_op_timeout')
+ZK_RETRY_DELAY_S = 0.3    # what a retried command costs (delay 0.2 + jitter)
 
 
 class _HarnessFatal(BaseException):
@@ -91,6 +97,11 @@ class World:
         self.step_root = False
         self.mid = None
         self.gets = 0
+        self.reads = 0
+        self.read_trace = []      # [(call, what, name)] of the current step
+        self.zk_plan = None
+        self.zk_fired = None
+        self.in_retry = 0
         self.cand = {}
         self.pre_outdated = None
         self.first_sync_in_step = False
@@ -117,6 +128,8 @@ class World:
         self.fps = []
         self.nontrivial = 0
         self.step_traces = {}     # op index -> [(call, basename, nbytes)]
+        self.step_reads = {}      # op index -> [(call, what, name)]
+        self.zk_fired_all = []
         self.fired = []           # faults that fired: dicts
         self.died = {}
         self.last_death = None
@@ -135,11 +148,15 @@ class World:
             'dotfiles_left_by_crash': 0, 'waited_for_placement_node': 0,
             'fault_variants': 0, 'fault_inside_write_safe': 0,
             'crash_between_write_and_replace': 0,
-            'converged_after_fault': 0,
+            'converged_after_fault': 0, 'zk_read_calls': 0,
+            'zk_fault_variants': 0, 'zk_fault_on_direct_read': 0,
+            'zk_fault_absorbed_by_retry': 0,
+            'zk_fault_on_manifest_read': 0,
         }
         self.faults = {k: 0 for k in fsfault.KINDS}
         self.faults.update({'agent_killed': 0, 'session_expired': 0,
                             'mid_sync_change': 0})
+        self.faults.update({k: 0 for k in ZK_KINDS})
 
     # ------------------------------------------------------------------
     def fail(self, sig, detail):
@@ -213,6 +230,7 @@ class World:
 
         def counted_get(path, watch=None):
             self.on_agent_get(path)
+            self.on_agent_read('get', path)
             return real_get(path, watch=watch)
         client.get = counted_get
         real_get_children = client.get_children
@@ -220,9 +238,26 @@ class World:
         def counted_get_children(path, watch=None, include_data=False):
             if path == ROOT:
                 self.on_agent_children()
+            self.on_agent_read('get_children', path)
             return real_get_children(path, watch=watch,
                                      include_data=include_data)
         client.get_children = counted_get_children
+        real_exists = client.exists
+
+        def counted_exists(path, watch=None):
+            self.on_agent_read('exists', path)
+            return real_exists(path, watch=watch)
+        client.exists = counted_exists
+        real_retry = client.retry
+
+        def counted_retry(func, *args, **kwargs):
+            # KazooClient.retry (treadmill: command_retry max_tries=30)
+            self.in_retry += 1
+            try:
+                return real_retry(func, *args, **kwargs)
+            finally:
+                self.in_retry -= 1
+        client.retry = counted_retry
         context.GLOBAL.zk.conn = client
         self.agent_client = client
         self.agent_alive = True
@@ -258,7 +293,8 @@ class World:
         self.in_agent = False
         fired = self.seam.fired
         cause = 'spontaneous'
-        if fired is not None:
+        if fired is not None or (self.zk_fired is not None and
+                                 not self.zk_fired['absorbed']):
             cause = 'fault'
         elif where == 'killed' and detail == 'kill op':
             cause = 'kill'
@@ -334,6 +370,11 @@ class World:
         self.seam.begin(op.get('order', 0), op.get('fault'))
         self.mid = op.get('mid')
         self.gets = 0
+        self.reads = 0
+        self.read_trace = []
+        self.zk_plan = op.get('zkfault')
+        self.zk_fired = None
+        self.in_retry = 0
         self.pre_outdated = None
         self.first_sync_in_step = False
         self.synced_in_step = False
@@ -358,8 +399,27 @@ class World:
                 # never seen on the unchanged tree: no OSError is handled
                 self.probes['fault_survived_by_agent'] = \
                     self.probes.get('fault_survived_by_agent', 0) + 1
+        if self.step_index is not None:
+            self.step_reads[self.step_index] = list(self.read_trace)
+        self.probes['zk_read_calls'] += len(self.read_trace)
+        zkf = self.zk_fired
+        self.zk_plan = None
+        if zkf is not None:
+            self.zk_fired_all.append(zkf)
+            self.faults[zkf['kind']] += 1
+            if zkf['absorbed']:
+                self.probes['zk_fault_absorbed_by_retry'] += 1
+            else:
+                self.probes['zk_fault_on_direct_read'] += 1
+                if zkf['what'] == 'scheduled':
+                    self.probes['zk_fault_on_manifest_read'] += 1
+                if not died:
+                    # never seen on the unchanged tree: a failed direct read
+                    # ends the process (exit_on_unhandled / traceback)
+                    self.probes['zk_fault_survived_by_agent'] = \
+                        self.probes.get('zk_fault_survived_by_agent', 0) + 1
         self.log.ev('step', kind, [[c, b] for c, b, _n in trace], fired,
-                    died)
+                    zkf, died)
         written = sorted({n for n in seam.replaced + seam.created
                           if _is_instance_file(n)})
         removed = sorted({n for n in seam.unlinked if _is_instance_file(n)})
@@ -438,6 +498,47 @@ class World:
                         z.path.scheduled(name) in self.zk.nodes:
                     out.add(name)
             self.pre_outdated = out
+
+    def on_agent_read(self, call, path):
+        """One read call of the agent's client: a numbered fault point."""
+        if path.startswith(ROOT + '/'):
+            what, name = 'placement', path[len(ROOT) + 1:]
+        elif path.startswith(z.SCHEDULED + '/'):
+            what, name = 'scheduled', path[len(z.SCHEDULED) + 1:]
+        elif path == ROOT:
+            what, name = 'placement-root', ''
+        elif path == PRESENCE:
+            what, name = 'presence', ''
+        else:
+            what, name = 'other', ''
+        self.reads += 1
+        self.read_trace.append((call, what, name))
+        plan = self.zk_plan
+        if plan is None:
+            return
+        if plan.get('on'):
+            hit = plan['on'] == what and plan.get('name', '') == name
+        else:
+            hit = plan.get('at') == self.reads
+        if not hit:
+            return
+        self.zk_plan = None
+        kind = plan.get('kind')
+        if kind not in ZK_KINDS:
+            kind = ZK_KINDS[0]
+        # reads issued through KazooClient.retry (ChildrenWatch) or the
+        # DataWatch's own KazooRetry are re-issued by kazoo after a delay:
+        # the code under test only sees the delay
+        absorbed = bool(self.in_retry) or what == 'presence'
+        self.zk_fired = {'kind': kind, 'call': call, 'what': what,
+                         'name': name, 'at': self.reads,
+                         'absorbed': absorbed}
+        if absorbed:
+            self.clock.advance(ZK_RETRY_DELAY_S)
+            return
+        if kind == 'zk_op_timeout':
+            raise kexc.OperationTimeoutError()
+        raise kexc.ConnectionLoss()
 
     def on_agent_get(self, path):
         self.gets += 1
@@ -589,7 +690,7 @@ class World:
         """Reach probe: is the system quiescent and consistent now?"""
         if self.quiescent():
             self.check_quiescent()
-            if self.violation is None and self.fired:
+            if self.violation is None and (self.fired or self.zk_fired_all):
                 self.probes['converged_after_fault'] += 1
 
     # ------------------------------------------------------------------
@@ -1033,8 +1134,22 @@ class Generator:
         return {'op': 'heartbeat'}
 
     def decorate(self, world, op):
-        """Maybe attach a concurrent change to an agent step."""
+        """Maybe attach a lost ZooKeeper reply and / or a concurrent change
+        to an agent step."""
         rng = self.rng
+        if rng.random() < self.config.get('p_zk', 0.0):
+            placed = self.placed(world)
+            have = set(os.listdir(world.cache_dir))
+            todo = [n for n in placed if n not in have]
+            pool = todo if todo and rng.random() < 0.8 else placed
+            kind = rng.choice(ZK_KINDS)
+            if pool and rng.random() < 0.7:
+                op['zkfault'] = {'on': rng.choice(['scheduled', 'scheduled',
+                                                   'placement']),
+                                 'name': rng.choice(pool), 'kind': kind}
+            else:
+                op['zkfault'] = {'at': rng.randint(1, 2 * len(todo) + 3),
+                                 'kind': kind}
         if rng.random() >= self.config['p_mid']:
             return op
         placed = self.placed(world)
@@ -1281,6 +1396,7 @@ def make_config(prop, tier, rng):
         'proids': ['proid%d' % i for i in range(rng.randint(1, 2))],
         'p_root': rng.choice([0.5, 0.9, 1.0]),
         'p_mid': rng.choice([0.1, 0.3, 0.6]),
+        'p_zk': rng.choice([0.0, 0.1, 0.25]),
         'p_big': rng.choice([0.0, 0.0, 0.05]),
         'big_max': 1500 if big else 250,
         'max_f': 600 if big else 100,
@@ -1333,7 +1449,9 @@ class CacheSim(enginemod.Engine):
     )
     stub_components = (
         'ZooKeeper: simkit.zk (single copy, sessions, one-shot watches, '
-        'per-session ordered event queue delivered by deliver ops)',
+        'per-session ordered event queue delivered by deliver ops); the '
+        'agent\'s client is wrapped inside the engine: every get / exists / '
+        'get_children is a numbered fault point (lost reply)',
         'clock (virtual; time.sleep of the main loop hands control to the '
         'simulator)',
         'file-system seam simkit.fsfault installed as treadmill.eventmgr.'
@@ -1365,11 +1483,16 @@ class CacheSim(enginemod.Engine):
             'appears after a synchronisation that missed it + a later '
             'placement event, cache entry removed by another process + a '
             'later event, never-cached instance unplaced; '
-            'agent killed, session expired, restarted) executed fault-free '
+            'lost replies on single reads; agent killed, session expired, '
+            'restarted) executed without file-system faults '
             'with all oracles on; then for the sampled agent step(s) that '
             'wrote at least one cache file, EVERY mutating file-system call '
             'f of that step x every kind {crash before, crash after, ENOSPC, '
-            'EIO, short write (write calls only)} is re-executed from the '
+            'EIO, short write (write calls only)}, and EVERY read call r of '
+            'the agent\'s ZooKeeper client in that step (get of the '
+            'placement record, get of /scheduled/<inst>, exists, '
+            'get_children) x {ConnectionLoss, OperationTimeoutError: reply '
+            'lost, session survives}, is re-executed from the '
             'start of the history with the fault at f, followed by restart, '
             'delivery of all events, a main-loop iteration and the next ops '
             'of the history.  evaluations = runs (one history + its fault '
@@ -1385,6 +1508,16 @@ class CacheSim(enginemod.Engine):
             'delivered in order per session',
             'one clock: ZooKeeper ctime and file ctime come from the same '
             '(virtual) clock, no skew; an admin round trip takes 2 ms',
+            'a lost reply on a read (zkfault) raises ConnectionLoss / '
+            'OperationTimeoutError from direct client calls (zkutils.get of '
+            'the placement record and of /scheduled/<inst>, exists); reads '
+            'issued through KazooClient.retry (ChildrenWatch get_children; '
+            'treadmill configures command_retry max_tries=30) or the '
+            'DataWatch\'s own KazooRetry are re-issued by kazoo, so there '
+            'the code under test only sees a 0.3 s delay; the SUSPENDED / '
+            'CONNECTED listener round is not replayed (session intact: the '
+            'watches stay armed, the recipes\' re-read finds the same '
+            'children / mzxid and does not call the closures)',
             'rename(2) is atomic and tmpfs keeps what was written before a '
             'kill (process crash, not power loss: write_safe is called '
             'without fsync by EventMgr)',
@@ -1476,7 +1609,9 @@ class CacheSim(enginemod.Engine):
             res.trace_fp = logmod.fingerprint(world.executed)
             res.digest = log.digest()
             res.log_lines = log.lines if keep_log else None
-            res.extra = {'traces': world.step_traces, 'fired': world.fired}
+            res.extra = {'traces': world.step_traces, 'fired': world.fired,
+                         'reads': world.step_reads,
+                         'zk_fired': world.zk_fired_all}
         finally:
             clock.on_sleep = None
             if world is not None:
@@ -1510,6 +1645,7 @@ class CacheSim(enginemod.Engine):
         # 1. the fault-free history (every oracle is active)
         base = self._run(config, seed, None, False)
         traces = base.extra.get('traces', {})
+        reads = base.extra.get('reads', {})
         base.extra = {}
         if base.violation is not None:
             return base
@@ -1548,16 +1684,19 @@ class CacheSim(enginemod.Engine):
             picks.extend(rest[:max(0, config.get('picks', 1) - 1)])
             for j in sorted(picks):
                 bad = self._enumerate(config, seed, history, j, traces[j],
-                                      total, digests, keep_log)
+                                      total, digests, keep_log,
+                                      reads.get(j, []))
                 if bad is not None:
                     return bad
         total.digest = '%016x' % logmod.fingerprint(digests)
         return total
 
     def _enumerate(self, config, seed, history, j, trace, total, digests,
-                   keep_log):
+                   keep_log, reads=()):
         tail = history[j + 1:j + 1 + config.get('tail', 0)]
         tail = [op for op in tail if op['op'] != 'settle']
+        after = settle_ops() + tail + settle_ops() + [{'op': 'settle'}]
+        plans = []
         for f, (call, _base, nbytes) in enumerate(trace, 1):
             for kind in fsfault.KINDS:
                 if kind == 'short' and call != 'write':
@@ -1565,44 +1704,53 @@ class CacheSim(enginemod.Engine):
                 fault = {'at': f, 'kind': kind}
                 if kind == 'short':
                     fault['cut'] = nbytes // 2
-                variant = history[:j] + [dict(history[j], fault=fault)] + \
-                    settle_ops() + tail + settle_ops() + [{'op': 'settle'}]
-                res = self._run(config, seed, variant, keep_log)
-                fired = res.extra.get('fired', [])
-                res.extra = {}
-                total.steps += res.steps
-                total.sim_s += res.sim_s
-                total.probes['fault_variants'] += 1
-                for fk in fsfault.KINDS:
-                    total.faults[fk] += res.faults.get(fk, 0)
-                for key in ('converged_after_fault', 'restarts',
-                            'dotfiles_left_by_crash',
-                            'fault_survived_by_agent', 'outdated_rewritten',
-                            'agent_deaths', 'reader_checks',
-                            'quiescent_checks', 'written_content_checks',
-                            'died_spontaneous'):
-                    if key in res.probes:
-                        total.probes[key] = total.probes.get(key, 0) + \
-                            res.probes[key]
-                for fd in fired:
-                    if _inside_write_safe(fd):
-                        total.probes['fault_inside_write_safe'] += 1
-                        total.nontrivial += 1
-                    if fd['kind'] in ('crash', 'crash_after') and (
-                            fd['call'] in ('fchmod', 'fchown') or
-                            (fd['call'] == 'replace' and
-                             fd['kind'] == 'crash')) and fd['name'] != READY:
-                        total.probes['crash_between_write_and_replace'] += 1
-                total.fps.extend(res.fps)
-                digests.append(res.digest)
-                if res.violation is not None:
-                    res.probes = total.probes
-                    res.faults = total.faults
-                    res.nontrivial = total.nontrivial
-                    res.steps = total.steps
-                    res.sim_s = total.sim_s
-                    res.fps = total.fps
-                    return res
+                plans.append(('fault', fault))
+        # every read call of the agent's ZooKeeper client in that step
+        for r in range(1, len(reads) + 1):
+            for kind in ZK_KINDS:
+                plans.append(('zkfault', {'at': r, 'kind': kind}))
+        for key, plan in plans:
+            variant = history[:j] + [dict(history[j], **{key: plan})] + after
+            res = self._run(config, seed, variant, keep_log)
+            fired = res.extra.get('fired', [])
+            res.extra = {}
+            total.steps += res.steps
+            total.sim_s += res.sim_s
+            total.probes['fault_variants' if key == 'fault'
+                         else 'zk_fault_variants'] += 1
+            for fk in fsfault.KINDS + ZK_KINDS:
+                total.faults[fk] += res.faults.get(fk, 0)
+            for pk in ('converged_after_fault', 'restarts',
+                       'dotfiles_left_by_crash',
+                       'fault_survived_by_agent', 'outdated_rewritten',
+                       'agent_deaths', 'reader_checks',
+                       'quiescent_checks', 'written_content_checks',
+                       'died_spontaneous', 'zk_fault_on_direct_read',
+                       'zk_fault_absorbed_by_retry',
+                       'zk_fault_on_manifest_read',
+                       'zk_fault_survived_by_agent'):
+                if pk in res.probes:
+                    total.probes[pk] = total.probes.get(pk, 0) + \
+                        res.probes[pk]
+            for fd in fired:
+                if _inside_write_safe(fd):
+                    total.probes['fault_inside_write_safe'] += 1
+                    total.nontrivial += 1
+                if fd['kind'] in ('crash', 'crash_after') and (
+                        fd['call'] in ('fchmod', 'fchown') or
+                        (fd['call'] == 'replace' and
+                         fd['kind'] == 'crash')) and fd['name'] != READY:
+                    total.probes['crash_between_write_and_replace'] += 1
+            total.fps.extend(res.fps)
+            digests.append(res.digest)
+            if res.violation is not None:
+                res.probes = total.probes
+                res.faults = total.faults
+                res.nontrivial = total.nontrivial
+                res.steps = total.steps
+                res.sim_s = total.sim_s
+                res.fps = total.fps
+                return res
         return None
 
 
